@@ -445,9 +445,6 @@ class PlanJoinTablesQuery:
 
         def _check_conditions(node, **kwargs):
             if not isinstance(node, BinaryOperation):
-                if isinstance(node, ast.Operation):
-                    # NOT, BETWEEN, functions ...: comparisons below them are not top-level conjuncts of the ON clause
-                    binary_ops.add(node.op.lower())
                 return
 
             arg1, arg2 = node.args
@@ -470,7 +467,16 @@ class PlanJoinTablesQuery:
             # exclude condition
             node.args = [Constant(0), Constant(0)]
 
-        query_traversal(model_table.join_condition, _check_conditions)
+        def _conjuncts(node):
+            # only the top-level conjuncts of the ON clause map columns: a comparison under NOT / OR / inside a function does not
+            if isinstance(node, BinaryOperation) and node.op.lower() == 'and':
+                for arg in node.args:
+                    yield from _conjuncts(arg)
+            elif node is not None:
+                yield node
+
+        for condition in _conjuncts(model_table.join_condition):
+            _check_conditions(condition)
         return columns_map
 
     def get_filters_from_join_conditions(self, fetch_table):
